@@ -2,7 +2,8 @@ From Coq Require Import List NArith Bool.
 From V.gen Require Consts.
 From V.common Require Import Varint.
 Require V.C18.Model.
-From V.C01 Require Import Model Proofs.
+Require V.C02.Model V.C02.Proofs.
+From V.C01 Require Import Model Proofs Early Symbolic.
 Import ListNotations.
 Open Scope N_scope.
 From V.C01 Require Import Properties.
@@ -69,6 +70,38 @@ Check (C01_reject_regardless_of_dialed :
   forall on_curve verify pb rs e dialed,
     verify_identity on_curve verify pb rs = Reject e ->
     accept on_curve verify pb rs dialed = Reject e).
+Check (C01_payload_last_key_wins :
+  forall k1 k2 sg,
+    len k1 < 128 -> len k2 < 128 -> len sg < 128 ->
+    decode_payload ([10; len k1] ++ k1 ++ [10; len k2] ++ k2 ++ [18; len sg] ++ sg)
+    = Some (mkPayload (Some k2) (Some sg))).
+Check (C01_payload_unknown_field_skipped :
+  forall key v sg,
+    len key < 128 -> v < 128 -> len sg < 128 ->
+    decode_payload ([10; len key] ++ key ++ [24; v] ++ [18; len sg] ++ sg)
+    = Some (mkPayload (Some key) (Some sg))).
+Check (C01_tls_accept_sound :
+  forall on_curve verify x spki expected p,
+    tls_accept on_curve verify x spki expected = Accept p ->
+    exists kb sg k,
+      x = TlsExt kb sg /\ decode_pubkey on_curve kb = KeyOk k /\
+      verify k (TLS_PREFIX ++ spki) sg = true /\
+      p = peer_id_of_key k /\ (expected = None \/ expected = Some p)).
+Check (C01_tls_accept_complete :
+  forall on_curve verify kb sg k spki expected,
+    decode_pubkey on_curve kb = KeyOk k -> verify k (TLS_PREFIX ++ spki) sg = true ->
+    (expected = None \/ expected = Some (peer_id_of_key k)) ->
+    tls_accept on_curve verify (TlsExt kb sg) spki expected = Accept (peer_id_of_key k)).
+Check (C01_tls_dialed_mismatch :
+  forall on_curve verify x spki p q,
+    tls_verify on_curve verify x spki = Accept p -> q <> p ->
+    tls_accept on_curve verify x spki (Some q) = Reject EMismatch).
+Check (C01_tls_binding :
+  forall (on_curve : bytes -> bool) (verify : bytes -> bytes -> bytes -> bool),
+    (forall pk m m' sg, verify pk m sg = true -> verify pk m' sg = true -> m = m') ->
+    forall x spki spki' e' p',
+      tls_accept on_curve verify x spki' e' = Accept p' -> spki <> spki' ->
+      forall e, tls_accept on_curve verify x spki e = Reject ETlsIssuer).
 Check (C01_binding :
   forall (on_curve : bytes -> bool) (verify : bytes -> bytes -> bytes -> bool),
     (forall pk m m' sg, verify pk m sg = true -> verify pk m' sg = true -> m = m') ->
@@ -157,7 +190,7 @@ Check (C01_transcript_honest_partial :
   forall on_curve verify (H : list item -> bytes) (KDF : list bytes -> bytes)
          (pubk : N -> bytes) (dh : N -> bytes -> bytes),
     (forall x y, dh x (pubk y) = dh y (pubk x)) ->
-    forall D L,
+    forall D L, pro D = pro L ->
       let a := forward on_curve verify H KDF pubk dh D L in
       no_forgery on_curve verify H KDF pubk dh D L a /\
       snd (run_d on_curve verify H KDF pubk dh D a) =
@@ -167,3 +200,86 @@ Check (C01_transcript_honest_partial :
         outcome_of (check_dialed (dialed_of L) (verify_identity on_curve verify (pay D) (pubk (sta D)))))).
 Check (C01_transcript_hash_instance_partial :
   forall a b, H_inst a = H_inst b -> a = b).
+Check (C01_webrtc_prologue_binds :
+  forall on_curve verify (H : list item -> bytes) (KDF : list bytes -> bytes)
+         (pubk : N -> bytes) (dh : N -> bytes -> bytes),
+    (forall a b, H a = H b -> a = b) ->
+    forall D L a,
+      no_forgery on_curve verify H KDF pubk dh D L a ->
+      (pro D <> pro L ->
+       (forall p, snd (run_d on_curve verify H KDF pubk dh D a) <> OAccept p) /\
+       (forall p, run_l on_curve verify H KDF pubk dh L a <> OAccept p)) /\
+      (forall p, snd (run_d on_curve verify H KDF pubk dh D a) = OAccept p -> pro D = pro L) /\
+      (forall p, run_l on_curve verify H KDF pubk dh L a = OAccept p -> pro D = pro L)).
+Check (C01_xx_order :
+  forall on_curve verify (H : list item -> bytes) (KDF : list bytes -> bytes)
+         (pubk : N -> bytes) (dh : N -> bytes -> bytes),
+    (forall a b, H a = H b -> a = b) ->
+    (forall x y, dh x (pubk y) = dh y (pubk x)) ->
+    forall D L,
+      (pro D = pro L ->
+       let a := withhold3 H KDF pubk dh D L in
+       no_forgery on_curve verify H KDF pubk dh D L a /\
+       snd (run_d on_curve verify H KDF pubk dh D a) =
+         outcome_of (check_dialed (dialed_of D) (verify_identity on_curve verify (pay L) (pubk (sta L)))) /\
+       run_l on_curve verify H KDF pubk dh L a = OIo) /\
+      (forall a p, no_forgery on_curve verify H KDF pubk dh D L a ->
+         run_l on_curve verify H KDF pubk dh L a = OAccept p ->
+         fst (run_d on_curve verify H KDF pubk dh D a) <> None) /\
+      (forall D', d_msg1 pubk D = d_msg1 pubk D' ->
+         l_msg2 H KDF pubk dh L (d_msg1 pubk D) = l_msg2 H KDF pubk dh L (d_msg1 pubk D')) /\
+      (forall m s pl pp,
+         dec (KDF (d_ks1 dh D m)) (H (d_tr1 pubk D m)) (m2_s m) = Some s ->
+         dec (KDF (d_ks2 dh D m s)) (H (d_tr2 pubk D m)) (m2_p m) = Some pl ->
+         decode_payload pl = Some pp ->
+         d_run on_curve verify H KDF pubk dh D (DMsg m) =
+           (Some (mkM3 (d_cs3 H KDF pubk dh D m s) (d_cp3 H KDF pubk dh D m s)),
+            outcome_of (check_dialed (dialed_of D) (verify_payload on_curve verify pp s))))).
+Check (C01_early_data :
+  forall on_curve verify (H : list item -> bytes) (KDF : list bytes -> bytes)
+         (pubk : N -> bytes) (dh : N -> bytes -> bytes)
+         (L : party) (a : attack) (e : V.C02.Model.renv) (bufs sc : list N),
+    ((forall p, run_l on_curve verify H KDF pubk dh L a <> OAccept p) ->
+     listener_app_bytes on_curve verify H KDF pubk dh L a e bufs sc = 0) /\
+    (forall j, V.C02.Proofs.wf_env e -> V.C02.Proofs.not_auth e j ->
+     listener_app_bytes on_curve verify H KDF pubk dh L a e bufs sc
+       <= V.C02.Model.pstart (V.C02.Model.e_plains e) j)).
+Check (C01_dy_attacker_knows_only_public :
+  forall (asec bad : N -> Prop) tr t, DY.valid asec bad tr -> DY.knows asec bad tr t -> DY.pub asec bad t).
+Check (C01_dy_knowledge_monotone :
+  forall (asec bad : N -> Prop) tr tr' t,
+    incl tr tr' -> DY.knows asec bad tr t -> DY.knows asec bad tr' t).
+Check (C01_dy_secrets_never_leak :
+  forall (asec bad : N -> Prop) tr,
+    DY.valid asec bad tr ->
+    (forall a e s, In (DY.NewD a e s) tr \/ In (DY.NewL a e s) tr ->
+       ~ DY.knows asec bad tr (DY.TSk e) /\ ~ DY.knows asec bad tr (DY.TSk s)) /\
+    (forall a, ~ bad a -> ~ DY.knows asec bad tr (DY.TIdSk a))).
+Check (C01_dy_dialer_authenticates :
+  forall (asec bad : N -> Prop) tr a e s P rs K,
+    DY.valid asec bad tr -> In (DY.AcceptD a e s P rs K) tr -> ~ bad P ->
+    In (DY.Signed P (DY.signed_part rs)) tr /\
+    (exists e', In (DY.NewD P e' rs) tr \/ In (DY.NewL P e' rs) tr) /\
+    ~ asec e /\ ~ asec rs /\
+    (exists k y, K = DY.TMix (DY.TMix k (DY.dh e rs)) (DY.dh s y)) /\
+    ~ DY.knows asec bad tr K).
+Check (C01_dy_listener_authenticates :
+  forall (asec bad : N -> Prop) tr a e s P rs K,
+    DY.valid asec bad tr -> In (DY.AcceptL a e s P rs K) tr -> ~ bad P ->
+    In (DY.Signed P (DY.signed_part rs)) tr /\
+    (exists e', In (DY.NewD P e' rs) tr \/ In (DY.NewL P e' rs) tr) /\
+    ~ asec e /\ ~ asec rs /\
+    (exists k, K = DY.TMix k (DY.dh e rs)) /\
+    ~ DY.knows asec bad tr K).
+Check (C01_dy_matching_sessions :
+  forall (asec bad : N -> Prop) tr a e s P rs a' e' s' P' rs' K,
+    DY.valid asec bad tr -> In (DY.AcceptD a e s P rs K) tr -> In (DY.AcceptL a' e' s' P' rs' K) tr ->
+    rs = s' /\ rs' = s /\ (~ bad P -> a' = P) /\ (~ bad P' -> a = P')).
+Check (C01_dy_secret_owner_unique :
+  forall (asec bad : N -> Prop) tr ev1 ev2 x,
+    DY.valid asec bad tr -> In ev1 tr -> In ev2 tr -> In x (DY.names ev1) -> In x (DY.names ev2) -> ev1 = ev2).
+Check (C01_dy_honest_run :
+  DY.valid DY.nobody DY.nobody DY.honest_trace /\
+  In (DY.AcceptD 10 1 2 20 4 (DY.d_key 1 2 3 4)) DY.honest_trace /\
+  In (DY.AcceptL 20 3 4 10 2 (DY.l_key 3 4 1 2)) DY.honest_trace /\
+  DY.d_key 1 2 3 4 = DY.l_key 3 4 1 2).
